@@ -136,6 +136,12 @@ Definition std_model (mu : R) (A : arith) : Prop :=
 
 Definition exact_arith : arith := {| fadd := Cplus; fsub := Cminus; fmul := Cmult; fdiv := Cdiv |}.
 
+(* an arithmetic that really rounds (for non-vacuity): every result scaled by 1 + 2^-10 *)
+Definition scl : C := RtoC (1 + 1 / 2 ^ 10).
+Definition scaled_arith : arith :=
+  {| fadd := fun a b => ((a + b) * scl)%C; fsub := fun a b => ((a - b) * scl)%C;
+     fmul := fun a b => ((a * b) * scl)%C; fdiv := fun a b => ((a / b) * scl)%C |}.
+
 (* rounded Horner as coded *)
 Definition horner_fl (A : arith) := horner_coded C (RtoC 0) (fadd A) (fmul A).
 
@@ -189,24 +195,57 @@ Definition sec_poly_fl (A : arith) (ab : list (C * C)) (x : C) : option C :=
   | None => None
   end.
 
-(* ------------------------------------------------------------------ (3) exact twin over Q*Q *)
-Local Open Scope Q_scope.
-Definition QC := (Q * Q)%type.
-Definition qc0 : QC := (0, 0).
-Definition qc1 : QC := (1, 0).
-Definition qc_add (a b : QC) : QC := (fst a + fst b, snd a + snd b).
-Definition qc_sub (a b : QC) : QC := (fst a - fst b, snd a - snd b).
-Definition qc_mul (a b : QC) : QC := (fst a * fst b - snd a * snd b, fst a * snd b + snd a * fst b).
-Definition qc_norm2 (a : QC) : Q := fst a * fst a + snd a * snd a.
+(* ------------------------------------------------------------------ (3) exact twin *)
+(* Gaussian rationals with ONE common denominator: (a, b, d) stands for (a + b i)/d.  (With a
+   pair of independent rationals and no gcd the denominators square at every complex product;
+   with a common denominator they only multiply, and no gcd is ever needed.) *)
+Local Open Scope Z_scope.
+Definition QC := (Z * Z * positive)%type.
+Definition qc_re (a : QC) : Z := fst (fst a).
+Definition qc_im (a : QC) : Z := snd (fst a).
+Definition qc_den (a : QC) : positive := snd a.
+Definition qc0 : QC := (0, 0, 1%positive).
+Definition qc1 : QC := (1, 0, 1%positive).
+Definition qc_of_q (r i : Q) : QC :=
+  (Qnum r * Zpos (Qden i), Qnum i * Zpos (Qden r), (Qden r * Qden i)%positive).
+(* cancel common factors 2 (constant time per bit; all evaluation points of the check are dyadic, so
+   this keeps the denominators of three-term recurrences from growing like Fibonacci numbers) *)
+Fixpoint strip2 (a b : Z) (d : positive) : QC :=
+  match d with
+  | xO d' => if andb (Z.even a) (Z.even b) then strip2 (Z.div2 a) (Z.div2 b) d' else (a, b, d)
+  | _ => (a, b, d)
+  end.
+Definition qc_add (a b : QC) : QC :=
+  strip2 (qc_re a * Zpos (qc_den b) + qc_re b * Zpos (qc_den a))
+         (qc_im a * Zpos (qc_den b) + qc_im b * Zpos (qc_den a)) (qc_den a * qc_den b)%positive.
+Definition qc_sub (a b : QC) : QC :=
+  strip2 (qc_re a * Zpos (qc_den b) - qc_re b * Zpos (qc_den a))
+         (qc_im a * Zpos (qc_den b) - qc_im b * Zpos (qc_den a)) (qc_den a * qc_den b)%positive.
+Definition qc_mul (a b : QC) : QC :=
+  (qc_re a * qc_re b - qc_im a * qc_im b, qc_re a * qc_im b + qc_im a * qc_re b,
+   (qc_den a * qc_den b)%positive).
+Definition qc_n2 (a : QC) : Z := qc_re a * qc_re a + qc_im a * qc_im a.
+(* a / b, meaningful for b <> 0 *)
 Definition qc_div (a b : QC) : QC :=
-  let n := qc_norm2 b in
-  ((fst a * fst b + snd a * snd b) / n, (snd a * fst b - fst a * snd b) / n).
-Definition qc_is0 (a : QC) : bool := andb (Qeq_bool (fst a) 0) (Qeq_bool (snd a) 0).
+  ((qc_re a * qc_re b + qc_im a * qc_im b) * Zpos (qc_den b),
+   (qc_im a * qc_re b - qc_re a * qc_im b) * Zpos (qc_den b),
+   (qc_den a * Z.to_pos (qc_n2 b))%positive).
+Definition qc_is0 (a : QC) : bool := andb (Z.eqb (qc_re a) 0) (Z.eqb (qc_im a) 0).
+Definition qc_norm2 (a : QC) : Q := Qmake (qc_n2 a) (qc_den a * qc_den a).
+Local Open Scope Q_scope.
+
+(* injection into C (specification side of the twin) *)
+Definition QC2C (a : QC) : C :=
+  ((IZR (qc_re a) / IZR (Zpos (qc_den a)))%R, (IZR (qc_im a) / IZR (Zpos (qc_den a)))%R).
 
 Definition horner_q := horner QC qc0 qc_add qc_mul.
 Definition sparse_q := sparse_eval QC qc0 qc_add qc_mul.
 Definition cheb_q := cheb_sum QC qc0 qc1 qc_add qc_mul qc_sub.
 Definition cheb_coded_q := cheb_eval QC qc0 qc1 qc_add qc_mul qc_sub.
+(* equality of values (cross-multiplication) *)
+Definition qc_eqb (a b : QC) : bool :=
+  andb (Z.eqb (qc_re a * Zpos (qc_den b)) (qc_re b * Zpos (qc_den a)))
+       (Z.eqb (qc_im a * Zpos (qc_den b)) (qc_im b * Zpos (qc_den a))).
 
 (* rational upper bound of a square root: for q >= 0, (qsqrt_up q)^2 >= q, with relative
    excess about 2^-60:  sqrt(n/d) = sqrt(n d)/d <= (isqrt(n d 4^k) + 1)/(d 2^k) ; k is chosen so
@@ -222,13 +261,26 @@ Definition qsqrt_up (q : Q) : Q :=
       Qmake s (d * Z.to_pos (2 ^ k)%Z)
   | _ => 0
   end.
-Definition qc_mod_up (a : QC) : Q := qsqrt_up (qc_norm2 a).
+(* round a rational UP to a dyadic with about 130 significant bits (keeps the bound computations
+   cheap: without it the denominators of the running bound grow with every term) *)
+Definition qup (q : Q) : Q :=
+  match Qnum q with
+  | Zpos n =>
+      let d := Qden q in
+      let e := (130 - (Z.log2 (Zpos n) - Z.log2 (Zpos d)))%Z in
+      match e with
+      | Zneg p => Qmake ((Zpos n / (Zpos d * 2 ^ (Zpos p)) + 1) * 2 ^ (Zpos p))%Z 1
+      | _ => Qmake (Zpos n * 2 ^ e / Zpos d + 1)%Z (Z.to_pos (2 ^ e)%Z)
+      end
+  | _ => 0
+  end.
+Definition qc_mod_up (a : QC) : Q := qup (qsqrt_up (qc_norm2 a)).
 
 (* upper bound of p~(|x|): Horner over Q with upper bounds of the moduli *)
 Fixpoint habs_q (l : list QC) (r : Q) : Q :=
   match l with
   | [] => 0
-  | a :: l' => qc_mod_up a + r * habs_q l' r
+  | a :: l' => qup (qc_mod_up a + r * habs_q l' r)
   end.
 Definition eval_mono_q (l : list QC) (x : QC) : QC * Q := (horner_q l x, habs_q l (qc_mod_up x)).
 
@@ -238,7 +290,7 @@ Definition eval_mono_q (l : list QC) (x : QC) : QC * Q := (horner_q l x, habs_q 
 Fixpoint chebabs_loop (cs : list QC) (r t0 t1 acc : Q) : Q :=
   match cs with
   | [] => acc
-  | c :: rest => let t := 2 * r * t1 + t0 in chebabs_loop rest r t1 t (acc + qc_mod_up c * t)
+  | c :: rest => let t := qup (2 * r * t1 + t0) in chebabs_loop rest r t1 t (qup (acc + qc_mod_up c * t))
   end.
 Definition chebabs_q (cs : list QC) (r : Q) : Q :=
   match cs with
@@ -248,7 +300,9 @@ Definition chebabs_q (cs : list QC) (r : Q) : Q :=
                 | c1 :: rest => chebabs_loop rest r 1 r (qc_mod_up c0 + qc_mod_up c1 * r)
                 end
   end.
-Definition eval_cheb_q (cs : list QC) (x : QC) : QC * Q := (cheb_q cs 0%nat x, chebabs_q cs (qc_mod_up x)).
+(* the value is computed with the coded (linear-time) recurrence; C14_chebrec_exact says it is the
+   specification value cheb_q (whose naive definition of T_k takes exponential time) *)
+Definition eval_cheb_q (cs : list QC) (x : QC) : QC * Q := (cheb_coded_q cs x, chebabs_q cs (qc_mod_up x)).
 
 (* secular: S(x), P(x) = -S(x) prod(x-b_i), and the condition quantity
    (sum |a_i|/|x-b_i| + 1) * prod |x-b_i|  bounded from above.  None when x = b_i. *)
@@ -272,7 +326,7 @@ Fixpoint sec_prod_q (ab : list (QC * QC)) (x : QC) : QC :=
 Fixpoint sec_abs_q (ab : list (QC * QC)) (x : QC) : Q :=
   match ab with
   | [] => 0
-  | (a, b) :: r => qsqrt_up (qc_norm2 a / qc_norm2 (qc_sub x b)) + sec_abs_q r x
+  | (a, b) :: r => qup (qup (qsqrt_up (qc_norm2 a / qc_norm2 (qc_sub x b))) + sec_abs_q r x)
   end.
 Definition eval_sec_q (ab : list (QC * QC)) (x : QC) : option (QC * QC * Q) :=
   match sec_terms_q ab x with
